@@ -12,7 +12,7 @@ import json, os
 import vcommon as V
 
 META = dict(
-    text="Lean 4 theorems (Props/C06.lean). (1) table_is_documented: the operator table regenerated from InitInfixOps induces exactly the documented order, partition and associativity of levels (decide over the whole table, numbers not compared). (2) pratt_iff_stratified / expand_iff_statements: for EVERY token list of the fragment (any length, selectors nested to any depth, malformed lists included) the Pratt loop of pratt.go (model, regenerated table) returns a tree and rest iff the textbook stratified recursive-descent parser over the documented levels returns them, and InfixExpandArray returns a statement list iff it is the list of stratified statements (fuel-free form: 'returns with enough fuel'; induction on the token list, the loop cut at each level's binding power, stop property of Expression; the table/grammar link corr_generated is re-established by decide on every run with the binding powers read off the table). (3) lex_spacing: for EVERY token sequence (names, dotted paths, decimal and float numerals, the operators written with operator characters, brackets, comma, semicolon) and EVERY legal spacing of it (Spec/Spacing.lean: a blank is needed only between two words, between characters that would spell another operator or open a comment, before a signed numeral that follows a word or closing bracket, and after a binary minus that follows a blank and precedes a digit) the lexer model reads exactly that token sequence; the four exclusions are shown necessary by counterexample theorems (`a -1` reads as `a`, `-1`: the sign look-back, known finding). (4) infix_text_tokens / text_means_stratified: the text of a block in any legal spacing, nested [ ], ( ), { } to any depth, goes through the lexer and parser models to a token array that depends on the source tree alone, and its expansion is the stratified statement list. A unit test can only sample operator pairs and spacings; the theorems cover all sequences and all legal spacings, and the exhaustive correspondence ties the models to the code.",
+    text="Lean 4 theorems (Props/C06.lean). (1) table_is_documented: the operator table regenerated from InitInfixOps induces exactly the documented order, partition and associativity of levels (decide over the whole table, numbers not compared). (2) pratt_iff_stratified / expand_iff_statements: for EVERY token list of the fragment (any length, selectors nested to any depth, malformed lists included) the Pratt loop of pratt.go (model, regenerated table) returns a tree and rest iff the textbook stratified recursive-descent parser over the documented levels returns them, and InfixExpandArray returns a statement list iff it is the list of stratified statements (fuel-free form: 'returns with enough fuel'; induction on the token list, the loop cut at each level's binding power, stop property of Expression; the table/grammar link corr_generated is re-established by decide on every run with the binding powers read off the table). (3) lex_spacing: for EVERY token sequence (names, dotted paths, decimal and float numerals, the operators written with operator characters, brackets, comma, semicolon) and EVERY legal spacing of it (Spec/Spacing.lean: a blank is needed only between two words, between characters that would spell another operator or open a comment, before a signed numeral that follows a word or closing bracket, and after a binary minus that follows a blank and precedes a digit) the lexer model reads exactly that token sequence; the four exclusions are shown necessary by counterexample theorems (`a -1` reads as `a`, `-1`: the sign look-back, known finding). (4) infix_text_tokens / text_means_stratified: the text of a block in any legal spacing, nested [ ], ( ), { } to any depth, goes through the lexer and parser models to a token array that depends on the source tree alone, and its expansion is the stratified statement list. (5) Interference histories: the expansion and the value of a block in interpreter A are functions of A and the block alone - htree/hval ops create and use other interpreters of every constructor kind (NewZlisp, NewZlispSandbox, NewZlispWithFuncs with a small and with a shifted table, Duplicate, Clone) before and after A, then require the spec's tree made of A's OWN symbols (symbol numbers compared through an overlay accessor), value/effects equal to those of the prefix form under the same history, and equal to the history-free run in a process of its own, for every operator family incl. indexing, slicing, selectors and assignment forms; table theorems package_level_state_allow_list / no_interpreter_state_in_package_level_handlers (regenerated list of every write to a package-level variable from pratt.go and the interpreter constructors: explicit allow-list, only constants and bare top-level functions stored). A unit test can only sample operator pairs and spacings and uses one interpreter kind at a time; the theorems cover all sequences and all legal spacings, and the exhaustive correspondence ties the models to the code.",
     note="Trusted: Lean kernel; axioms propext/Classical.choice/Quot.sound; the extractor zyx (syntactic, cross-checked against the live env.infixOps each run); Model/Pratt.lean, Model/Lexer.lean, Model/Parser.lean, Model/InfixFront.lean are hand-written and tied to zygo/pratt.go, lexer.go, parser.go, comment.go by correspondence (differential testing: `lex`/`parse` channels of C13/C12 rune by rune, and here `expand`: exhaustive operator pairs/triples with spacing variants, every none/blank combination of the gaps of every operator pair through the lexer alone and end to end, random gap kinds, structured blocks, arbitrary token lists, the excluded adjacencies). Not proved: that the fuel the executable models use (fuelFor) always suffices — the unbounded theorems are about 'returns with enough fuel', expandBlock_eq_parseBlock says the two executable functions agree whenever both return, pratt_eq_stratified_partial (bounded, kernel-checked) and the correspondence check the fuel; PrattEqStratified for EVERY well-formed table (only the regenerated one is covered). Outside the fragment of the Pratt theorem (specification silent, model = implementation by correspondence only): if/else, for lowering, break/continue, ++/-- or a prefix-only operator directly followed by a tighter operator, the undotted symbol `.`. Outside lex_spacing: labels and slices written with a colon, string/char literals inside blocks (the lexer-level theorem LegalFrom has them), comments in gaps.",
     technique="Lean 4 proof (Pratt loop = stratified grammar by induction on the token list under a table/grammar correspondence discharged by decide; lexer model reads every legal spacing as the token sequence, induction over the token list; parser model on the token queue, induction over the source tree; table facts by decide) + model/implementation correspondence through the real lexer, parser and expander",
     design_ref="DESIGN.md §7 C06",
@@ -213,6 +213,8 @@ def run(rep):
         "extract/ex_infixtable.go reads InitInfixOps and LeftBindingPower syntactically; its table is compared with the live env.infixOps on every run (op `expand ops`)",
         "if/else, go-style for, break/continue, and ++/-- or a prefix-only operator directly followed by a tighter operator are outside pratt_iff_stratified (the specification is silent; model = implementation by correspondence only)",
         "value phase: the prefix form is evaluated by the same interpreter (C02 is a separate property)",
+        "interference histories: 42 history shapes over the constructor kinds z/s/f/g/d/c; the history-free reference runs in a process holding only interpreters of A's kind; lines that disagree are re-run alone so that a replay is one line",
+        "extract/ex_infixhandlers.go uses go/types to decide what is a package-level variable; it scans pratt.go and the five interpreter constructors only (state parked elsewhere is found by the history ops, not by the table)",
     ]
     if not (prep["ok_drv"] and prep["ok_harness"]):
         rep.violation("machinery-failure", {"what": "driver or harness did not build against the current tree",
